@@ -10,6 +10,7 @@ import (
 	"math"
 	"net/http"
 	"net/http/httptest"
+	"net/url"
 	"runtime"
 	"runtime/debug"
 	"strings"
@@ -321,6 +322,9 @@ func propC07ServerUnary(c c07Case) *Outcome {
 	o := &Outcome{NonTrivial: c.Announced != int64(len(c.Body))}
 	o.class("side=%s", c.Side)
 	o.class("announced-vs-sent=%s", map[bool]string{true: "equal", false: "more-announced"}[c.Announced == int64(len(c.Body))])
+	if c.Announced < 0 {
+		o.class("length-not-announced")
+	}
 	var mu sync.Mutex
 	var got [][]byte
 	svc := &Service{Unary: func(ctx context.Context, req *pb.Message) (*pb.Message, error) {
@@ -331,7 +335,7 @@ func propC07ServerUnary(c c07Case) *Outcome {
 	}}
 	h := newHTTPHandlerBase(c.Carrier, "", newServiceDesc(), svc)
 	run := func() (alloc uint64, panicked string, status int) {
-		req := httptest.NewRequest("POST", "http://verif.test"+mUnary, bodyReader(c.Body, c.Announced != int64(len(c.Body)), c.Chop))
+		req := httptest.NewRequest("POST", "http://verif.test"+mUnary, bodyReader(c.Body, c.Announced >= 0 && c.Announced != int64(len(c.Body)), c.Chop))
 		req.Header.Set("Content-Type", httpgrpc.UnaryRpcContentType_V1)
 		req.ContentLength = c.Announced
 		w := httptest.NewRecorder()
@@ -367,13 +371,100 @@ func propC07ServerUnary(c c07Case) *Outcome {
 	if alloc > bound {
 		return o.failf("server-unary (%s): a request announcing %d bytes and delivering %d cost %d bytes of allocation (bound %d)", c.Carrier, c.Announced, len(c.Body), alloc, bound)
 	}
-	if c.Announced != int64(len(c.Body)) && len(got) > 0 {
+	if c.Announced >= 0 && c.Announced != int64(len(c.Body)) && len(got) > 0 {
 		return o.failf("server-unary (%s): the request announced %d bytes, %d arrived, yet the handler ran", c.Carrier, c.Announced, len(c.Body))
+	}
+	if c.Announced < 0 || c.Announced == int64(len(c.Body)) {
+		// a complete request (its length announced or not, i.e. chunked): exactly the message that was encoded
+		want := new(pb.Message)
+		if proto.Unmarshal(c.Body, want) == nil {
+			if len(got) != 1 || string(got[0]) != string(detBytes(want)) {
+				return o.failf("server-unary (%s): a complete request of %d bytes (Content-Length %d): the handler ran %d time(s) and did not get the message that was encoded", c.Carrier, len(c.Body), c.Announced, len(got))
+			}
+		} else if len(got) > 0 {
+			return o.failf("server-unary (%s): the request body is not a valid message, yet the handler ran", c.Carrier)
+		}
+	}
+	return o
+}
+
+// propC07EchoEarly: a bidi handler that answers its first request before it has read the others (a full-duplex
+// habit) behind a real HTTP/1.1 server: net/http stops reading the request at the first flushed response byte. Whatever
+// the handler is told then, it is not "the request stream ended here".
+func propC07EchoEarly(c c07Case) *Outcome {
+	o := &Outcome{NonTrivial: true}
+	o.class("side=%s", c.Side)
+	var mu sync.Mutex
+	got := 0
+	var final error
+	svc := &Service{Stream: func(kind string, stream grpc.ServerStream) error {
+		for {
+			m := new(pb.Message)
+			err := stream.RecvMsg(m)
+			mu.Lock()
+			if err != nil {
+				final = err
+				mu.Unlock()
+				if err == io.EOF {
+					return nil
+				}
+				return err
+			}
+			got++
+			first := got == 1
+			mu.Unlock()
+			if first {
+				stream.SendMsg(&pb.Message{Count: 1})
+			}
+		}
+	}}
+	srv := httptest.NewServer(newHTTPHandlerBase(c.Carrier, "", newServiceDesc(), svc))
+	defer srv.Close()
+	u, _ := url.Parse(srv.URL)
+	ch := &httpgrpc.Channel{Transport: srv.Client().Transport, BaseURL: u}
+	var cerr error
+	replies := 0
+	stall := guard("call", func() {
+		ctx, cancel := context.WithCancel(context.Background())
+		defer cancel()
+		cs, err := ch.NewStream(ctx, streamDescOf(kBidi), mBidi)
+		if err != nil {
+			cerr = err
+			return
+		}
+		for i := 0; i < c.NFrames; i++ {
+			if cs.SendMsg(&pb.Message{Payload: bytes.Repeat([]byte{byte('a' + i%26)}, c.FrameSize)}) != nil {
+				break
+			}
+		}
+		cs.CloseSend()
+		for {
+			if cerr = cs.RecvMsg(new(pb.Message)); cerr != nil {
+				return
+			}
+			replies++
+		}
+	})
+	if stall != "" {
+		return o.failf("server-echo-early: %s", firstLine(stall))
+	}
+	srv.Close()
+	mu.Lock()
+	defer mu.Unlock()
+	o.Observed = map[string]interface{}{"sent": c.NFrames, "handler_got": got, "handler_final": errStr(final), "client_final": errStr(cerr), "replies": replies}
+	if final == io.EOF && got != c.NFrames {
+		return o.failf("server-echo-early (%s): the client sent %d messages and closed; the handler answered the first one at once, received %d and was then told the request stream had ended cleanly (io.EOF)", c.Carrier, c.NFrames, got)
+	}
+	if cerr == io.EOF && got != c.NFrames {
+		return o.failf("server-echo-early (%s): the client sent %d messages, the handler received %d, and the call ended with success", c.Carrier, c.NFrames, got)
 	}
 	return o
 }
 
 func propC07(c c07Case) *Outcome {
+	if c.Side == "server-echo-early" {
+		return propC07EchoEarly(c)
+	}
 	if c.Side == "server-unary" {
 		return propC07ServerUnary(c)
 	}
@@ -586,12 +677,20 @@ func genC07(t *rapid.T) c07Case {
 		}
 		return c
 	}
+	if rapid.IntRange(0, 149).Draw(t, "echoearly") == 0 {
+		return c07Case{Side: "server-echo-early", Carrier: rapid.SampledFrom([]string{cHTTP, cHTTPMux, cHTTPPer}).Draw(t, "eecarrier"),
+			NFrames: rapid.IntRange(2, 6).Draw(t, "eeframes"), FrameSize: rapid.SampledFrom([]int{0, 5, 300, 5000}).Draw(t, "eesize")}
+	}
 	if rapid.IntRange(0, 24).Draw(t, "serverunary") == 0 {
 		c = c07Case{Side: "server-unary", Carrier: rapid.SampledFrom([]string{cHTTP, cHTTPMux, cHTTPPer}).Draw(t, "sucarrier")}
 		c.Body = mustMarshal(genMsg(t, "sumsg", 600).Build())
 		c.Body = c.Body[:rapid.IntRange(0, len(c.Body)).Draw(t, "susent")]
 		c.Announced = int64(len(c.Body))
-		if rapid.IntRange(0, 3).Draw(t, "suhonest") > 0 {
+		if rapid.IntRange(0, 3).Draw(t, "suchunked") == 0 {
+			// the whole message, its length not announced (Transfer-Encoding: chunked: a proxy, curl -T, a non-Go client)
+			c.Body = mustMarshal(genMsg(t, "sumsg2", 600).Build())
+			c.Announced = -1
+		} else if rapid.IntRange(0, 3).Draw(t, "suhonest") > 0 {
 			c.Announced = rapid.SampledFrom([]int64{int64(len(c.Body)) + 1, int64(len(c.Body)) + 1000, 100 << 20, 400000000, 1 << 31, 1 << 62, 1<<63 - 1}).Draw(t, "suannounced")
 		}
 		// (no value in between: a terabyte-sized make() is a fatal out-of-memory error of the runtime, which no test process survives)
